@@ -172,9 +172,19 @@ def run(ctx: Ctx) -> None:
         if v["what"].startswith(("K5", "K3")):
             ctx.mismatch("rule contract violated on the implementation: " + v["what"], {k: (w if not isinstance(w, str) else w[:400]) for k, w in v.items()})
     ctx.cov["rule_calls_monitored"] = mon.calls
+    # tie of the modelled block sub-parser (mini_staged is a theorem about exactly this model)
+    from . import miniblock
+    from .common import Driver
+    drv = Driver()
+    try:
+        miniblock.tie(ctx, drv, 2500 if quick else 60000)
+    finally:
+        drv.close()
     ctx.partial += [
         "the per-rule map contract (every token a rule pushes at its own level has a map inside [startLine, state.line)) is "
-        "a hypothesis of the engine theorem, monitored on every real rule call; 'starts on a non-blank line', 'ends on a "
+        "a hypothesis of the engine theorem; it is PROVED (Props/C03b.lean: mapOK_*) for code, fence, hr, heading and "
+        "paragraph, giving the unconditional theorem mini_staged for that sub-parser (model tied by the `miniblock` "
+        "differential runs); for the other rules it is monitored on every real rule call; 'starts on a non-blank line', 'ends on a "
         "non-blank line', inline content lines and coverage are decided by the oracle",
     ]
 
